@@ -531,6 +531,25 @@ def program_level(ctx, info):
     return len(progs), compiled
 
 
+REPAIRS = [("divMin", "F1 INT64_MIN / -1 and % -1 guarded"), ("shiftCount", "F2 shift count bounded"),
+           ("vecDivAlias", "F3 vector / vector keeps its own payload"), ("safeContainerBound", "F4 safe container bounded by its own size"),
+           ("negIndexStore", "F5 negative index rejected by setArrayAtRef"), ("floatCast", "F6 float to integer conversion defined"),
+           ("floatStr", "F7 str(float) writes inside its buffer"), ("getterRef", "F8 getter field never used as a reference")]
+
+
+def repair_obligations(ctx):
+    """one kernel-checked `decide` per regenerated repair flag (the hypotheses of
+    C04_step_never_ub_code and of C04_ref_discipline for the code as it is now)"""
+    for flag, what in REPAIRS:
+        path = os.path.join(ctx.tmp, "Repair_%s.lean" % flag)
+        with open(path, "w") as f:
+            f.write("import MorfuseModel.Gen.OpAccept\nexample : Morfuse.Gen.OpAccept.fix_%s = true := by decide\n" % flag)
+        with common.LakeLock():
+            p = common.sh(["lake", "env", "lean", path], cwd=LEAN, timeout=600)
+        ctx.oblige("repair present: %s (fix_%s)" % (what, flag), p.returncode == 0,
+                   "the source does not show this repair: the undefined behaviour is reachable (notes/C04-findings.md)")
+
+
 def theorem_failures(props_file, build_out):
     """names of the theorems of Props/C04.lean that the failed build reports errors in"""
     import re
@@ -565,6 +584,7 @@ def check(ctx):
         ctx.stats["vm_opcodes_not_confined"] = ans.split(" ")[1:]
         if len(ans.split(" ")) > 1:
             ctx.notes.append("error paths that do not restore stack height / code position: " + ans)
+    repair_obligations(ctx)
     d, nclean, ub = operator_level(ctx, info)
     nprog, ncomp = program_level(ctx, info)
     ctx.samples = ["div i:-9223372036854775808 i:-1", "evalat S{1;2} i:2", "setat s:616263 i:-1 c:120",
